@@ -4,7 +4,7 @@
    (Model/Token.v token_is_jwt / make_token, used by every grant handler of the flow model), and the
    secret atoms a DCR response or an error body may carry (Model/Disclosure.v).  That real bytes carry
    nothing else is the job of the scanner of suite c09. *)
-From Verif Require Import Base Scope Types Prog Pop Token Authorize System Config Artifacts Disclosure C09Proofs.
+From Verif Require Import Base Scope Types Prog Pop Token Authorize System Config Artifacts Disclosure C09Proofs C09History.
 Local Open Scope N_scope.
 
 (* PublicJWKS, for every key set and every key type (RSA, EC of any curve, symmetric; given with or
@@ -22,6 +22,16 @@ Theorem pairwise_never_jwt : forall n c gt,
   token_is_jwt c gt = false /\ is_kind KAtJwt (fst (make_token n c gt)) = false.
 Proof. exact make_token_pairwise. Qed.
 Print Assumptions pairwise_never_jwt.
+
+(* Over all histories (any world, any stored clients, any operations): every access token carried by a
+   token response, an authorization response or a CIBA push notification that is a JWT was made for a
+   client that is not pairwise, or by the client_credentials grant.  The client is the one the
+   response belongs to: the authenticated client of a token request, the client of an authorization
+   request, the client of the session a callback or a notification resumes. *)
+Theorem pairwise_never_jwt_all_histories : forall w dyn ops,
+  trace_pw_ok w (init_state dyn) 0 ops = true.
+Proof. exact (fun w dyn ops => trace_pw_ok_all w ops (init_state dyn) 0%nat). Qed.
+Print Assumptions pairwise_never_jwt_all_histories.
 
 (* the flow model's switch is the artifact model's shouldSwitchToOpaque *)
 Theorem token_format_switch_agrees : forall acf cfg c gt,
